@@ -1018,6 +1018,15 @@ func RunBeacon(t *testing.T, sc *BeaconScenario, dump io.Writer) (res RunResult)
 		}()
 		synctest.Test(t, func(t *testing.T) {
 			e = &beaconEngine{sc: sc, t: t, rec: rec, dir: dir}
+			if sc.Prop == "C10" {
+				// C10 is C01 / C02 / C05 restricted to the sync path: in its scenarios (a node that
+				// was down catches up from mixed peers) the same oracles decide it
+				rec.Alias("C01", "stored-beacon-not-on-chain", "C10", "synced-beacon-not-on-chain")
+				rec.Alias("C02", "put-skips-round", "C10", "store-written-out-of-chain-order")
+				rec.Alias("C02", "gap-in-stored-chain", "C10", "gap-left-by-sync")
+				rec.Alias("C02", "round-rewritten", "C10", "sync-rewrote-a-round")
+				rec.Alias("C05", "not-caught-up-after-heal", "C10", "sync-did-not-converge")
+			}
 			e.w = NewWorld(sc.Seed, rec, sc.Net)
 			InstallYields(sc.Yield, rec)
 			defer UninstallYields()
